@@ -1,1 +1,3 @@
 import RModel.Spec.BSet
+import RModel.Driver.Util
+import RModel.Driver.Core
